@@ -18,9 +18,9 @@ CBMC_FLAGS = ['--object-bits', '12', '--conversion-check', '--no-malloc-may-fail
 CBMC_TIMEOUT = int(os.environ.get('VERIF_CBMC_TIMEOUT', '300'))
 MEM_KB = 10 * 1024 * 1024
 
-def sh(cmd, timeout=None, cwd=None):
+def sh(cmd, timeout=None, cwd=None, mem_kb=None):
     t0 = time.time()
-    pre = 'ulimit -v %d; ' % MEM_KB
+    pre = 'ulimit -v %d; ' % (mem_kb or MEM_KB)
     try:
         p = subprocess.run(['bash', '-c', pre + 'exec "$@"', 'x'] + cmd, stdout=subprocess.PIPE, stderr=subprocess.STDOUT,
                            text=True, timeout=timeout, cwd=cwd)
@@ -238,7 +238,7 @@ class Job:
         if self.split:
             rc, out, dt = self.run_split(cmd)
         else:
-            rc, out, dt = sh(cmd, timeout=self.timeout)
+            rc, out, dt = sh(cmd, timeout=self.timeout, mem_kb=(self.meta or {}).get('mem_kb'))
         with open(base + '.log', 'w') as f:
             f.write(out)
         res['solver_s'] = dt
@@ -519,7 +519,7 @@ def build_lemma_job(unit, lm):
         rep2.append(c)
     return Job(unit, lm['id'], lm.get('kind', 'lemma'), '\n'.join(parts), lm['entry'], replace=sorted(set(rep2)),
                loops=bool(lm.get('loops')), unwind=lm.get('unwind'), extra_flags=lm.get('cbmc_flags', ()),
-               meta=dict(lemma=lm.get('doc', ''), functions=bodies + rep, bound=lm.get('bound')), timeout=lm.get('timeout'))
+               meta=dict(lemma=lm.get('doc', ''), functions=bodies + rep, bound=lm.get('bound'), mem_kb=lm.get('mem_kb')), timeout=lm.get('timeout'))
 
 # ----------------------------------------------------------------------------
 def classify(job, res, known):
